@@ -11,7 +11,6 @@ import (
 	"os"
 	"path/filepath"
 	"strings"
-	"time"
 
 	"github.com/cossacklabs/acra/keystore/filesystem"
 	"github.com/cossacklabs/acra/keystore/v2/keystore/filesystem/backend"
@@ -148,10 +147,13 @@ func runTamperV2(r *ev.Run, cfg config, realFiles bool) {
 			os.WriteFile(filepath.Join(g.dir, file), orig, 0o600)
 		}
 	}
-	t0 := time.Now()
-	n0 := r.Counter("c_byte_values_checked_v2")
-	runByteValuesV2(r, cfg, g, slots, content, realFiles)
-	fmt.Fprintf(os.Stderr, "TIMING byte values %s real=%v: %d loads in %v\n", cfg.name, realFiles, r.Counter("c_byte_values_checked_v2")-n0, time.Since(t0))
+	// byte values: the tier's full value set with the changed bytes presented by the back end; where this store is
+	// tampered with by real file rewrites (thorough, directory), once more with the quick value set through real
+	// rewrites (a rewrite costs about a millisecond: 255 values x every offset would take twenty minutes)
+	runByteValuesV2(r, cfg, g, slots, content, false, r.Thorough())
+	if realFiles {
+		runByteValuesV2(r, cfg, g, slots, content, true, false)
+	}
 	r.SampleN("c/"+cfg.name, 1, map[string]interface{}{"oracle": "c", "config": cfg.name, "real_files": realFiles, "rings": len(slots),
 		"example": fmt.Sprintf("%s.keyring (%d bytes): each byte flipped, OpenKeyRing + getter on a fresh handle", slots[1].path, len(content[slots[1].path+".keyring"]))})
 }
@@ -187,7 +189,7 @@ func (t *tamperBackend) Close() error {
 // bit-flip sweep: OpenKeyRing on a fresh handle must fail (every 8th offset also the getter), success is a violation
 // whether the readable content changed or not, a panic too. The changed byte is classified with classifyDER, the
 // signature names the DER element, the role of the byte in it (tag / length / content) and the direction of the change.
-func runByteValuesV2(r *ev.Run, cfg config, g *rig, slots []slot, content map[string][]byte, realFiles bool) {
+func runByteValuesV2(r *ev.Run, cfg config, g *rig, slots []slot, content map[string][]byte, realFiles, allValues bool) {
 	tb := &tamperBackend{}
 	if cfg.dir {
 		b, err := backend.CreateDirectoryBackend(g.dir)
@@ -207,7 +209,6 @@ func runByteValuesV2(r *ev.Run, cfg config, g *rig, slots []slot, content map[st
 	defer ks.Close()
 	var fresh ksrig.FullKeyStore = ks
 	opener := fresh.(ringOpener)
-	thorough := r.Thorough()
 	var changed []byte
 	for si, s := range slots {
 		file := s.path + ".keyring"
@@ -243,7 +244,7 @@ func runByteValuesV2(r *ev.Run, cfg config, g *rig, slots []slot, content map[st
 			fieldBytes[shortField(f.field)+" "+f.part]++
 			r.SetAdd("c_byte_value_fields_v2", shortField(f.field)+" "+f.part)
 			checkGetter := off%8 == 0
-			for _, bv := range byteValuesFor(orig[off], thorough) {
+			for _, bv := range byteValuesFor(orig[off], allValues) {
 				changed = append(changed[:0], orig...)
 				changed[off] = bv.v
 				if realFiles {
@@ -265,6 +266,9 @@ func runByteValuesV2(r *ev.Run, cfg config, g *rig, slots []slot, content map[st
 				dir := changeDirection(orig[off], bv.v)
 				r.Case()
 				r.Count("c_byte_values_checked_v2", 1)
+				if realFiles {
+					r.Count("c_byte_values_checked_v2_by_real_file_rewrite", 1)
+				}
 				r.Count("c_byte_values_checked_v2_"+f.part+"_bytes", 1)
 				r.Count("c_byte_values_checked_v2_rule="+bv.rule, 1)
 				if f.part == "length" && orig[off] == 0x20 && bv.v >= 0x10 && bv.v <= 0x1f {
@@ -314,8 +318,8 @@ func runByteValuesV2(r *ev.Run, cfg config, g *rig, slots []slot, content map[st
 			r.Inconclusive(fmt.Sprintf("tamper v2 byte values: ring %s does not open after the sweep: %v", s.path, err))
 		}
 		if si < 2 {
-			r.SampleN("c-bytes/"+cfg.name, 2, map[string]interface{}{"oracle": "c (byte values)", "config": cfg.name, "real_files": realFiles, "ring": s.path + ".keyring",
-				"file_len": len(orig), "tier_values": map[bool]string{false: "value-1, value+1, value/2, 0x10..0x1f for 0x20, 0, 0x7f, 0x80, 0x81, 0xff", true: "all 255 other values"}[thorough],
+			r.SampleN(fmt.Sprintf("c-bytes/%s/%v", cfg.name, realFiles), 2, map[string]interface{}{"oracle": "c (byte values)", "config": cfg.name, "real_files": realFiles, "ring": s.path + ".keyring",
+				"file_len": len(orig), "tier_values": map[bool]string{false: "value-1, value+1, value/2, 0x10..0x1f for 0x20, 0, 0x7f, 0x80, 0x81, 0xff", true: "all 255 other values"}[allValues],
 				"bytes_per_der_field": fieldBytes,
 				"signature_value_length_byte": map[string]interface{}{"offset": sigLenOff, "original": "0x20", "first_values_tried": sigLenTried, "rejected": sigLenRejected}})
 		}
